@@ -282,6 +282,38 @@ def all_off_contour(calls):
     return False
 
 
+def _contours(calls):
+    """lists of (op, points) per contour, either protocol"""
+    cur, out = None, []
+    for c in calls:
+        o = c[0]
+        if o in (COMP, PCOMP):
+            continue
+        if o in (MOVE, PBEGIN, QBLOB):
+            cur = []
+            out.append(cur)
+        if o in (CLOSE, END, PEND, PBEGIN) or cur is None:
+            continue
+        cur.append((o, [(c[i], c[i + 1]) for i in range(1, len(c) - 1, 2)]))
+    return out
+
+
+def _has_single(calls):
+    return any(sum(len(p) for _, p in ct) == 1 for ct in _contours(calls))
+
+
+def _has_dup(calls):
+    for ct in _contours(calls):
+        pts = [q_ for _, p in ct for q_ in p]
+        if any(a == b for a, b in zip(pts, pts[1:])):
+            return True
+    return False
+
+
+def _starts_off(calls):
+    return any(ct and ct[0][0] == POFF and any(o != POFF for o, _ in ct) for ct in _contours(calls))
+
+
 def residues(n):
     return [n % p for p in PRIMES]
 
@@ -745,11 +777,11 @@ def judge_all(chk, traces, label):
         if cl == "output-protocol" and d.get("exception"):
             # the adapter raised on a valid outline (TLC rejected the recorded output as not being a
             # pen call sequence): the key names the exception and, since the one such finding on the
-            # unchanged tree is the qCurveTo(..., None) special case, whether the outline has a
-            # contour without on-curve point.  Geometry clauses are never relabelled here: their
+            # unchanged tree is the qCurveTo(..., None) special case, whether the (segment-pen) outline
+            # has such a call.  Geometry clauses are never relabelled here: their
             # root causes are named by the judge (Trace_C14.CutDupOff).
             key = "%s:raises-%s" % (ad, d["exception"].split(" ")[0])
-            if any(c[0] == QBLOB for c in d["input"]) or all_off_contour(d["input"]):
+            if any(c[0] == QBLOB for c in d["input"]):
                 key += "-on-contour-without-oncurve"
         chk.reject(key, "adapter %s violates clause %s on %s" % (ad, cl, json.dumps(d)[:700]),
                    {"K": t["k"], "calls": t["s"][0], "tag": t.get("tag"), "adapter": ad, "clause": cl, "run": d["run"]})
@@ -769,7 +801,8 @@ def lattice_items(chk):
     cfg = "MC_PenProto_thorough" if thorough else "MC_PenProto"
     r = chk.tlc("MC_PenProto", cfg=cfg, label="MC_PenProto exhaustive", timeout=2400 if thorough else 900, workers=WORKERS,
                 env={"JAVA_TOOL_OPTIONS": "-Xss32m"})
-    outlines = gen_outlines(r.stdout)
+    # TLC's workers print in scheduling order: sort, so that the seeded sample below is the same on every run
+    outlines = sorted(gen_outlines(r.stdout), key=lambda o: json.dumps(o, separators=(",", ":")))
     n_exh = len(outlines)
     chk.log("%s: %d states, %d complete outlines, laws hold, %.0fs" % (cfg, r.distinct, n_exh, r.wall))
     if n_exh < 1000:
@@ -827,6 +860,20 @@ def run(chk):
         for rr in t["r"]:
             per[rr[0]] = per.get(rr[0], 0) + 1
     chk.notes["runs_per_adapter"] = {NAMES[k]: v for k, v in sorted(per.items())}
+    # non-vacuity of the input population: how many replayed outlines exercise each case of the quantifier
+    cls = {}
+    for t in traces + ctraces:
+        calls = t["s"][0]
+        f = features(calls)
+        for name, hit in (("point-protocol", f.pt), ("open contour", not f.allclosed), ("cubic", f.curve),
+                          ("super-bezier or odd cubic", f.curve and not f.curve2only), ("quadratic", f.quad),
+                          ("contour without on-curve point", f.blob or all_off_contour(calls)),
+                          ("component", f.comp), ("several contours", f.contours > 1),
+                          ("single-point contour", _has_single(calls)), ("coincident consecutive points", _has_dup(calls)),
+                          ("closed contour starting off-curve", f.pt and _starts_off(calls))):
+            if hit:
+                cls[name] = cls.get(name, 0) + 1
+    chk.notes["input_classes"] = cls
     chk.notes["outlines"] = {"enumerated": n_exh, "replayed_from_enumeration": n_chosen, "simulation": n_deep,
                              "corpus": len(ctraces)}
     chk.exhaustive = False
@@ -840,6 +887,8 @@ def run(chk):
         "BoundsPen is compared at 1/64 of a grid unit with 1 unit slack (float rounding of the extremum); cubic extrema are only bracketed (control box, on-curve points, t=1/2), quadratic extrema are exact",
         "AreaPen*60K^2 is an integer on grid inputs; it is compared exactly through residues modulo four 15-bit primes",
         "a contour of a single point has no observable closedness (named in PenProto.NormSingle)",
+        "a closed contour without on-curve point has no start point of its own: which implied point drawing begins at is representation (PenProto.FreeStart); everything else about it is judged like any contour",
+        "svgLib.path.parse_path is driven with SVGPathPen's output (absolute commands) and with the same outline re-expressed by the harness in relative commands (m l h v c q z, with and without implicit repetition) for outlines that have such an expression (no components, no implied points, no super-beziers)",
     ]
 
 
